@@ -191,7 +191,8 @@ def _matrix(r, rows, cols):
 
 
 MATVEC_PLACES = ["plain", "plus-scalar-x", "plus-x", "minus-x-times-par", "times-x", "of-scaled", "of-product", "nested",
-                 "two-matrices", "fn", "other-var", "abs", "strided-arg", "with-const-vector", "plus-scalar-x", "of-scaled"]
+                 "two-matrices", "fn", "other-var", "abs", "strided-arg", "with-const-vector", "plus-scalar-x", "of-scaled",
+                 "of-abs-difference", "abs-difference-plus-matvec", "of-abs-negated", "of-abs-scaled-by-par"]
 _matvec_counter = [0]
 
 
@@ -229,6 +230,15 @@ def fam_matvec(r):
         e0 = ("sub", ("sin", AX), X)
     elif place == "abs":
         e0 = ("sub", ("abs", AX), ("num", 0.123))
+    elif place == "of-abs-difference":              # A @ |x - b|: the derivative is A @ diag(sign(x - b))
+        e0 = ("sub", ("matvec", 0, n, ("abs", ("sub", X, ("par", 1, ("w",))))), one)
+    elif place == "abs-difference-plus-matvec":     # |x - z| + A @ z: the block w.r.t. z is A - diag(sign(x - z))
+        vars_.append(("z", ROUND(r, n), None))
+        e0 = ("add", ("abs", ("sub", X, ("var", 1, ("w",)))), ("matvec", 0, n, ("var", 1, ("w",))))
+    elif place == "of-abs-negated":
+        e0 = ("sub", ("matvec", 0, n, ("abs", ("neg", X))), one)
+    elif place == "of-abs-scaled-by-par":
+        e0 = ("sub", ("matvec", 0, n, ("abs", ("mul", ("par", 1, ("w",)), X))), one)
     elif place == "other-var":
         vars_.append(("z", ROUND(r, n), None))
         e0 = ("sub", ("add", AX, ("mul", ("num", 2.0), ("var", 1, ("w",)))), one)
@@ -238,7 +248,7 @@ def fam_matvec(r):
     else:
         e0 = ("sub", ("add", AX, ("par", 1, ("w",))), ("mul", ("num", 2.0), X))
     eqs = [("e0", "alg", e0, None)]
-    if place == "other-var":
+    if place in ("other-var", "abs-difference-plus-matvec"):
         eqs.append(("e1", "alg", ("sub", ("mul", ("var", 1, ("w",)), X), one), None))
     if place == "strided-arg":
         eqs.append(("e1", "alg", ("sub", ("powi", ("var", 0, ("t", 1, 2 * n, 2)), 2), one), None))
@@ -413,7 +423,7 @@ def fam_random_matrix(r):
 
 FAMILIES = [fam_len1_mixed, fam_strided, fam_neg_stride, lambda r: fam_list(r, "l"), lambda r: fam_list(r, "lp"), fam_par_list, fam_list_endpoints,
             fam_list_endpoints, fam_par_strided, fam_oob,
-            fam_mismatch, fam_ode_mismatch, fam_matvec, fam_matvec, fam_matvec, fam_matvec, fam_matvec, fam_matvec, fam_matvec_shape, fam_time_name, fam_zero_step, fam_random, fam_random,
+            fam_mismatch, fam_ode_mismatch, fam_matvec, fam_matvec, fam_matvec, fam_matvec, fam_matvec, fam_matvec, fam_matvec, fam_matvec_shape, fam_time_name, fam_zero_step, fam_random, fam_random,
             fam_random_matrix, fam_random_matrix]
 
 
